@@ -121,6 +121,11 @@ func run(f *sfnt.Font, o op) (res string) {
 				return fmt.Sprintf("%v/%v/%q", s.GlyphWidth(gid), s.GlyphBBox(gid), s.GlyphName(gid))
 			}
 			var sb strings.Builder
+			// (the file length depends on that order too - charset and cmap
+			// ranges - so it is part of the result only when nothing was appended)
+			if s.NumGlyphs() > len(list) {
+				k = -1
+			}
 			fmt.Fprintf(&sb, "n=%d len=%d err=%v", s.NumGlyphs(), k, err)
 			for i := range list {
 				sb.WriteString(" " + desc(glyph.ID(i)))
